@@ -206,6 +206,61 @@ def run(ctx):
             rep.check(not bad, 'R-C16-4', key, 'allocation size %s derives from lengths / constants / bounded parameters' % short(size, 140),
                       'allocation size depends on input data values: %s' % short(size, 200), ctx.where(b, bb))
     rep.floor('R-C16-4', 'allocation sites', nalloc, 5)
+    # .. and the validating constructors reserve no more than they are asked to hold: a reservation made once per party (inside a loop or a
+    # closure mapped over `0..party_capacity`) whose size itself contains the party count is quadratic in a parameter that the caller may
+    # legitimately make large (2^16 parties): the constructor aborts instead of returning an error
+    from . import ilen
+    ctor_roots = [b for n_ in ('RangeParameters::<P>::init', 'BulletproofGens::<P>::new', 'RangeStatement::<P>::init', 'RangeWitness::init')
+                  for b in [ctx.fn(n_, required=False)] if b is not None]
+    seen_b = set()
+    for b in list(ctor_roots) + [x for r_ in ctor_roots for x in ctx.facts.reachable_from([r_])]:
+        if b.key in seen_b:
+            continue
+        seen_b.add(b.key)
+        for bb, t in ctx.calls(b):
+            d = callee_decl(t)
+            if d not in ALLOC_DECLS:
+                continue
+            a = ctx.args(b, bb)
+            size = a[ALLOC_DECLS[d]] if ALLOC_DECLS[d] < len(a) else None
+            if size is None:
+                continue
+            try:
+                size_t = size
+                if b.is_closure:
+                    cs0 = ctx.closure_site(b)
+                    if cs0 is not None:
+                        # what the closure captured, in the vocabulary of the function that created it
+                        env0 = {('upvar', b.key, j): ctx.eng.operand(cs0[0], cs0[1], cs0[2], o) for j, o in enumerate(cs0[3]['rv']['ops'])}
+                        size_t = ctx.eng.subst(size, env0, ())
+                total = ilen.ival(ctx.eng.expand(size_t))
+                reps = []
+                for lp in ctx.enclosing_loops(b, bb):
+                    if lp.iter_term is not None:
+                        reps.append(ilen.icount(lp.iter_term))
+                fr = b
+                hops = 0
+                while fr.is_closure and hops < 3:
+                    hops += 1
+                    cs = ctx.closure_site(fr)
+                    if cs is None or cs[3]['place']['p']:
+                        break
+                    itz = ctx.eng.applied_to(cs[0], cs[1], cs[3]['place']['l'])
+                    if itz is not None:
+                        reps.append(ilen.icount(itz))
+                    for lp in ctx.enclosing_loops(cs[0], cs[1]):
+                        if lp.iter_term is not None:
+                            reps.append(ilen.icount(lp.iter_term))
+                    fr = cs[0]
+                for r_ in reps:
+                    total = ilen.pmul(total, r_)
+            except Exception:
+                continue
+            sq = sorted({a_ for mono, c_ in total.items() if c_ for a_ in mono if mono.count(a_) >= 2 and not a_.startswith('len(')})
+            if reps and sq:
+                rep.violation('R-C16-4', 'R-C16-4/%s/quadratic/%s' % (b.path, canon(size)[:80]),
+                              'the reservation %s is made once per %s: in total it is quadratic in %s, a parameter the caller may make large' % (
+                                  short(size, 80), ' x '.join(str(r_) for r_ in reps)[:80], ', '.join(x.split('.')[-1] for x in sq)), ctx.where(b, bb))
 
     # R-C16-5 MSM preconditions
     msm.check_verify_msm(ctx, 'R-C16-5')
